@@ -262,8 +262,10 @@ pub fn run(cfg: &Cfg, rep: &mut Report) {
                     let got = match &r { Ok(Db::None(v)) => format!("None({})", v), Ok(Db::Linear(v)) => format!("Linear({})", v.value), Ok(Db::Logarithmic(v, q)) => format!("Logarithmic({}, reference {})", v, q.value), Err(e) => format!("Err({})", e.get_code()) };
                     ctx.violation(&format!("C18:decibel:{}:{}:{}", $name, ["bare", "linear", "logarithmic"][kind as usize], dbs), jobj(&[("literal", jbytes(&lit)), ("suffix", jbytes(&ds)), ("got", jstr(&got)), ("expected_reference_in_SI_unit", want_ref.to_string())]));
                 }
-                // a decibel suffix of another quantity is undefined here
-                let foreign = *rng.pick(&["DBV", "DBMV", "DBUV", "DBW", "DBMW", "DBM", "DBUW", "DBA", "DBMA", "DBUA", "DB", "DBX", "DBMM"]);
+                // a decibel suffix of another quantity is undefined here; so is DB glued to a linear suffix the quantity does
+                // define (DBKV, DBNA, DBPCT ...) unless that happens to spell one of its decibel suffixes
+                let glued = format!("DB{}", rng.pick(lin));
+                let foreign: &str = if rng.chance(1, 3) { &glued } else { *rng.pick(&["DBV", "DBMV", "DBUV", "DBW", "DBMW", "DBM", "DBUW", "DBA", "DBMA", "DBUA", "DB", "DBX", "DBMM", "DBDBV", "DBVV", "DBK"]) };
                 if !logs.iter().any(|l| l.0 == foreign) {
                     let fs = case_pattern(rng, foreign);
                     if Db::<f32, $q>::try_from(Token::DecimalNumericSuffixProgramData(&lit, &fs)).is_ok() {
